@@ -48,7 +48,7 @@ func genC19(t *rapid.T) c19Case {
 		case "ok", "fail":
 			s.Cmd = rapid.IntRange(0, 23).Draw(t, "cmd") // reduced modulo the number of commands of its kind
 		case "lock":
-			s.Lock = rapid.SampledFrom([]string{"dead-pid", "live-foreign-pid", "own-dead-child", "empty", "garbage", "too-long"}).Draw(t, "lock")
+			s.Lock = rapid.SampledFrom([]string{"dead-pid", "live-foreign-pid", "own-dead-child", "empty", "garbage", "too-long", "dead-pid-while-creating-the-index", "dead-pid-7-digits"}).Draw(t, "lock")
 		}
 		return s
 	})
@@ -389,8 +389,15 @@ func runC19(tb report.TB, rep *report.Reporter, c c19Case) {
 			_ = os.MkdirAll(filepath.Dir(lockPath), 0o755)
 			staleLive = false
 			switch s.Lock {
-			case "dead-pid":
+			case "dead-pid", "dead-pid-7-digits":
 				_ = os.WriteFile(lockPath, []byte("4194000"), 0o644)
+			case "dead-pid-while-creating-the-index":
+				// the holder was killed while it built its cache for the first time (or rebuilt it): its lock is
+				// there, the cache files are not, and the directory of a search index exists but is still empty
+				_ = os.WriteFile(lockPath, []byte("4193999"), 0o644)
+				_ = os.RemoveAll(filepath.Join(dir, ".git", "git-bug", "cache"))
+				_ = os.RemoveAll(filepath.Join(dir, ".git", "git-bug", "indexes"))
+				_ = os.MkdirAll(filepath.Join(dir, ".git", "git-bug", "indexes", []string{"bugs", "identities"}[i%2]), 0o755)
 			case "own-dead-child":
 				ch := exec.Command("true")
 				_ = ch.Run()
